@@ -285,6 +285,9 @@ Proof.
     apply erase_cells_clip. destruct Hs as (_ & _ & _ & Hd). eapply gdims_row; eauto.
 Qed.
 
+Lemma image_cmds_paint_image : forall o r c f i, image_cmds o r c f i = paint_image o r c f i.
+Proof. intros. unfold image_cmds, paint_image. destruct (isz o i). reflexivity. Qed.
+
 Definition add_place (p : placement) (l : list placement) : list placement :=
   if place_mem p l then l else p :: l.
 
